@@ -138,7 +138,7 @@ fn find_operator_impl(
     operator_name: &str,
     dialect: Dialect,
 ) -> Option<(&pl::Func, Option<i32>, bool, Option<String>)> {
-    let operator_name = operator_name.strip_prefix("std.").unwrap();
+    let operator_name = operator_name.strip_prefix("std.")?;
     let operator_ident = pl::Ident::from_path(
         operator_name
             .split('.')
